@@ -173,6 +173,88 @@ func genC06(w *bufio.Writer, tier string, rng *rand.Rand) {
 		fmt.Fprintf(w, "bin %d %s cdf %s\n", n, fmtF(p), fmtF(k))
 		fmt.Fprintf(w, "bin %d %s pmf %s\n", n, fmtF(p), fmtF(float64(n)-k))
 	}
+	// the widest supports at the top of the range: balanced populations (K and Draws near N/2, hundreds of
+	// support points), asked at the first and last few dozen points and in steps through the whole support -
+	// the extreme tails, where a probability is 1e-200 and smaller, and the longest series
+	for i := 0; i < pick(tier, 40, 800); i++ {
+		N := 1000 - rng.Intn(140)
+		if rng.Intn(4) == 0 {
+			N = 400 + rng.Intn(601)
+		}
+		K, D := N/2+rng.Intn(121)-60, N/2+rng.Intn(121)-60
+		if rng.Intn(5) == 0 {
+			K, D = N/2, N/2
+		}
+		lo, hi := D+K-N, D
+		if lo < 0 {
+			lo = 0
+		}
+		if K < hi {
+			hi = K
+		}
+		var ks []int
+		for q := 0; q < 4; q++ {
+			ks = append(ks, lo+rng.Intn(45), hi-rng.Intn(45))
+		}
+		ks = append(ks, lo, lo+1, lo+2, hi, hi-1, lo+(hi-lo)/4, lo+(hi-lo)*3/4)
+		for _, k := range ks {
+			if k < lo-1 || k > hi+1 {
+				continue
+			}
+			fmt.Fprintf(w, "hyp %d %d %d cdf %s\n", N, K, D, fmtF(float64(k)))
+			if rng.Intn(2) == 0 {
+				fmt.Fprintf(w, "hyp %d %d %d pmf %s\n", N, K, D, fmtF(float64(k)))
+			}
+		}
+	}
+	// and the same for the binomial: N at the top of the range, k in the extreme tails
+	for i := 0; i < pick(tier, 30, 600); i++ {
+		n := 1000 - rng.Intn(150)
+		p := []float64{0.5, 0.25, 0.75, 0.1, 0.9, rng.Float64()}[rng.Intn(6)]
+		for q := 0; q < 6; q++ {
+			k := rng.Intn(40)
+			if rng.Intn(2) == 0 {
+				k = n - rng.Intn(40)
+			}
+			fmt.Fprintf(w, "bin %d %s cdf %s\n", n, fmtF(p), fmtF(float64(k)))
+			fmt.Fprintf(w, "bin %d %s pmf %s\n", n, fmtF(p), fmtF(float64(k)))
+		}
+	}
+	// sizes and counts aimed at the numeric constants of the code
+	for _, c := range dictSizes(rng, 1, 1000, pick(tier, 12, 150)) {
+		for rep := 0; rep < 3; rep++ {
+			N := c
+			if rep > 0 || N < 2 {
+				N = minI(1000, 2*c+rng.Intn(3)+rng.Intn(2)*rng.Intn(500))
+			}
+			if N < 2 {
+				continue
+			}
+			K, D := N/2+rng.Intn(5)-2, N/2+rng.Intn(5)-2
+			if rep == 2 {
+				K, D = minI(N, c), rng.Intn(N+1)
+			}
+			if K < 0 || D < 0 || K > N || D > N {
+				continue
+			}
+			lo, hi := D+K-N, D
+			if lo < 0 {
+				lo = 0
+			}
+			if K < hi {
+				hi = K
+			}
+			for _, k := range []int{lo, lo + 1, lo + c, lo + c + 1, lo + c - 1, hi - c, hi - c - 1, hi - 1, hi, (lo + hi) / 2} {
+				if k < lo-1 || k > hi+1 {
+					continue
+				}
+				fmt.Fprintf(w, "hyp %d %d %d cdf %s\n", N, K, D, fmtF(float64(k)))
+				fmt.Fprintf(w, "hyp %d %d %d pmf %s\n", N, K, D, fmtF(float64(k)))
+			}
+			fmt.Fprintf(w, "bin %d %s cdf %s\n", minI(1000, c), fmtF(0.5), fmtF(float64(minI(1000, c)/2)))
+			fmt.Fprintf(w, "bin %d %s pmf %s\n", minI(1000, N), fmtF(float64(1+rng.Intn(15))/16), fmtF(float64(c)))
+		}
+	}
 	nh := pick(tier, 300, 8000)
 	for i := 0; i < nh; i++ {
 		N := 15 + rng.Intn(986)
